@@ -181,6 +181,135 @@ class Body:
     def loc(self, item):
         return "%s:%s" % (item.get("file", self.file), item.get("line", self.line))
 
+    def ssa_version(self, local, bb, idx):
+        """SSA-style name of the value of `local` read just before statement idx ('t' = terminator) of
+        block bb: ('d', bb, idx) for a whole-local definition, ('phi', bb) where different versions
+        merge, ('entry',) for the value on function entry. Partial writes (field stores, &mut borrows
+        handed to calls are not tracked) give ('p', bb, idx). Two reads with the same name, one
+        dominating the other, see the same value."""
+        if not hasattr(self, "_ssa"):
+            self._ssa = {}
+        if local not in self._ssa:
+            defs = {}
+            for (dbb, didx, kind, item) in self.defs().get(local, []):
+                defs.setdefault(dbb, []).append((10 ** 9 if didx == "t" else didx, didx, kind))
+            for k in defs:
+                defs[k].sort()
+            # does anything take a mutable reference to the local? then versions are unreliable
+            mutref = False
+            for bi, blk in enumerate(self.blocks):
+                for s in blk["s"]:
+                    if s["k"] == "assign" and s["rv"]["k"] in ("ref", "rawptr") and s["rv"].get("mut", True) and s["rv"]["p"]["l"] == local and not any(e == "*" for e in s["rv"]["p"]["p"]):
+                        mutref = True
+            inn = {0: ("entry",)}
+            out = {}
+
+            def transfer(bi, v):
+                for pos, didx, kind in defs.get(bi, []):
+                    v = ("d", bi, str(didx)) if kind in ("assign", "call") else ("p", bi, str(didx))
+                return v
+            changed = True
+            rpo = self.rpo()
+            while changed:
+                changed = False
+                for bi in rpo:
+                    if bi != 0:
+                        vs = {out[p] for p in self.preds(bi) if p in out}
+                        if not vs:
+                            continue
+                        v = vs.pop() if len(vs) == 1 else ("phi", bi)
+                        if inn.get(bi) != v:
+                            # once a block is a phi it stays one
+                            if inn.get(bi) == ("phi", bi):
+                                v = ("phi", bi)
+                            else:
+                                inn[bi] = v
+                                changed = True
+                    o = transfer(bi, inn[bi])
+                    if out.get(bi) != o:
+                        out[bi] = o
+                        changed = True
+            self._ssa[local] = (defs, inn, mutref)
+        defs, inn, mutref = self._ssa[local]
+        if mutref:
+            return None
+        v = inn.get(bb)
+        if v is None:
+            return None
+        lim = 10 ** 9 if idx == "t" else idx
+        for pos, didx, kind in defs.get(bb, []):
+            if pos >= lim:
+                break
+            v = ("d", bb, str(didx)) if kind in ("assign", "call") else ("p", bb, str(didx))
+        return v
+
+    def reaching(self, local):
+        if not hasattr(self, "_rd"):
+            self._rd = {}
+        if local not in self._rd:
+            self._rd[local] = ReachingDefs(self, local)
+        return self._rd[local]
+
+
+class ReachingDefs:
+    """definitions are the entries of body.defs()[local]; whole-local assigns/calls kill, partial
+    writes only generate. `entry` (None) stands for the value on function entry (parameter or
+    uninitialised)."""
+
+    def __init__(self, body, local):
+        self.b = body
+        self.local = local
+        self.defs = list(body.defs().get(local, []))
+        self.by_bb = {}
+        for i, d in enumerate(self.defs):
+            self.by_bb.setdefault(d[0], []).append((d[1], i, d[2]))
+        for k in self.by_bb:
+            self.by_bb[k].sort(key=lambda x: (10 ** 9 if x[0] == "t" else x[0]))
+        self.inn = None
+
+    def _transfer(self, bb, s):
+        for idx, i, kind in self.by_bb.get(bb, []):
+            if kind in ("assign", "call"):
+                s = {i}
+            else:
+                s = s | {i}
+        return s
+
+    def solve(self):
+        if self.inn is not None:
+            return
+        b = self.b
+        inn = {0: {None}}
+        work = [0]
+        while work:
+            bb = work.pop()
+            out = self._transfer(bb, set(inn.get(bb, set())))
+            for s in b.succs(bb):
+                cur = inn.get(s)
+                if cur is None:
+                    inn[s] = set(out)
+                    work.append(s)
+                elif not out <= cur:
+                    cur |= out
+                    work.append(s)
+        self.inn = inn
+
+    def at(self, bb, idx):
+        """definitions reaching the point just before statement idx ('t' = the terminator) of bb"""
+        self.solve()
+        s = set(self.inn.get(bb, set()))
+        lim = 10 ** 9 if idx == "t" else idx
+        for sidx, i, kind in self.by_bb.get(bb, []):
+            pos = 10 ** 9 if sidx == "t" else sidx
+            if pos >= lim:
+                break
+            if kind in ("assign", "call"):
+                s = {i}
+            else:
+                s = s | {i}
+        return [(None if i is None else self.defs[i]) for i in s]
+
+
 
 # ---- operand helpers ----
 def op_local(op):
